@@ -37,6 +37,8 @@ CLAIMED["C10"] = ("hook-trace invariant monitor: pivoted_cholesky (on dense PSD 
                   "runtime monitoring: per-step hook trace checked against dense residual recomputation")
 CLAIMED["C11"] = ("hook-trace invariant monitor for MINRES (true residual of every shifted system non-increasing along the minres.iter trace, Krylov-optimal residual against an independent float64 Arnoldi least-squares problem where decidable, consistent stop, zero columns, scaling, additivity, output shapes, step bound) plus reference-model checks of contour_integral_quad and sqrt_inv_matmul (with / without left factor, method and function spelling) against the dense symmetric matrix root",
                   "runtime monitoring: per-iteration hook trace invariants and dense matrix-root reference")
+CLAIMED["C13"] = ("write-watchpoint sanitizer: a TorchDispatchMode observes every ATen op executed by the library (also inside torch.jit.script helpers) during sequences of public operations and direct utility calls with caller tensors in hostile layouts (transposed views, slices of sentinel-filled storages, stride-0 expansions); any in-place write (schema is_write) into a caller-owned storage, any change of a caller tensor's version counter / metadata / bytes or of the sentinel padding, and any change of the matrix denoted by the pre-existing operator is a violation",
+                  "runtime monitoring: torch-level write-watchpoint sanitizer (TorchDispatchMode) plus before/after snapshots")
 PENDING = {}
 def main():
     hooks_commits = []
